@@ -49,6 +49,7 @@ type World struct {
 	contractErrs []contractErr
 	commonPkg *PkgInfo
 	fullNameMemo map[string]*ssa.Function
+	privMemo map[*ssa.Alloc]bool
 }
 
 type contractErr struct{ file, msg, raw string }
@@ -833,4 +834,65 @@ func isLibKey(k string) bool {
 		}
 	}
 	return false
+}
+
+// privateAlloc: the cell is only loaded/stored by its own function and only read by closures capturing it,
+// so no callee (and no havoc standing for one) can change it.
+func (w *World) privateAlloc(a *ssa.Alloc) bool {
+	if r, ok := w.privMemo[a]; ok {
+		return r
+	}
+	if w.privMemo == nil {
+		w.privMemo = map[*ssa.Alloc]bool{}
+	}
+	res := addrUsesPrivate(a, 0)
+	w.privMemo[a] = res
+	return res
+}
+
+func addrUsesPrivate(v ssa.Value, depth int) bool {
+	refs := v.Referrers()
+	if refs == nil || depth > 3 {
+		return false
+	}
+	for _, r := range *refs {
+		switch x := r.(type) {
+		case *ssa.Store:
+			if x.Val == v {
+				return false
+			}
+		case *ssa.UnOp, *ssa.DebugRef:
+		case *ssa.FieldAddr:
+			if !addrUsesPrivate(x, depth+1) {
+				return false
+			}
+		case *ssa.MakeClosure:
+			fn, ok := x.Fn.(*ssa.Function)
+			if !ok {
+				return false
+			}
+			for i, b := range x.Bindings {
+				if b != v {
+					continue
+				}
+				if i >= len(fn.FreeVars) {
+					return false
+				}
+				fr := fn.FreeVars[i].Referrers()
+				if fr == nil {
+					return false
+				}
+				for _, rr := range *fr {
+					switch rr.(type) {
+					case *ssa.UnOp, *ssa.DebugRef:
+					default:
+						return false
+					}
+				}
+			}
+		default:
+			return false
+		}
+	}
+	return true
 }
